@@ -547,9 +547,12 @@ func (g *raceGen) featRunOnce() {
 // included Taskfiles
 func (g *raceGen) featIncludes() {
 	g.feat("includes")
-	ivsh := "IV_SH: {sh: 'echo ivsh'}"
-	if g.noGlobalSh && g.p(0.5) {
-		ivsh = "IV_SH: static"
+	// the variables of an included Taskfile are merged into the global ones
+	ivsh, nsh := "IV_SH: {sh: 'echo ivsh'}", "NSH: {sh: 'echo nsh'}"
+	if g.noGlobalSh {
+		ivsh, nsh = "IV_SH: static", "NSH: static-n"
+	} else {
+		g.feat("includes-sh-vars")
 	}
 	g.files["inc/Taskfile.yml"] = "version: '3'\nvars:\n  " + ivsh + "\n  IV_LOCAL: local-{{.IV}}\n" +
 		"includes:\n  nested:\n    taskfile: ./nested/Taskfile.yml\n    vars: {NV: 'n-{{.IV}}'}\n" +
@@ -557,7 +560,7 @@ func (g *raceGen) featIncludes() {
 		"  it:\n    aliases: [i]\n    vars: {TV: {sh: 'echo tv'}}\n    deps: [helper]\n    cmds: ['echo it {{.IV_SH}} {{.IV}} {{.IV_LOCAL}} {{.TV}} {{.V}}', {task: 'nested:nt', vars: {V: '{{.V}}'}}]\n" +
 		"  it2:\n    cmds: ['echo it2 {{.IV_SH}} {{.IV}}', {task: it, vars: {V: 'from-it2'}}]\n" +
 		"  helper:\n    internal: true\n    cmds: ['echo helper {{.IV}}']\n"
-	g.files["inc/nested/Taskfile.yml"] = "version: '3'\nvars:\n  NSH: {sh: 'echo nsh'}\ntasks:\n  nt:\n    cmds: ['echo nt {{.NV}} {{.NSH}} {{.V}}']\n"
+	g.files["inc/nested/Taskfile.yml"] = "version: '3'\nvars:\n  " + nsh + "\ntasks:\n  nt:\n    cmds: ['echo nt {{.NV}} {{.NSH}} {{.V}}']\n"
 	g.files["flat/Taskfile.yml"] = "version: '3'\nvars: {FLV: flat}\ntasks:\n  fl-t:\n    cmds: ['echo flat {{.FLV}} {{.V}}']\n  fl-hidden:\n    cmds: ['echo hidden']\n"
 	g.files["intl.yml"] = "version: '3'\ntasks:\n  helper:\n    cmds: ['echo internal helper {{.V}}']\n"
 	g.root.include("inc", "taskfile: ./inc/Taskfile.yml", "dir: ./inc", "vars: {IV: iv1}", "aliases: [i1]")
@@ -876,7 +879,7 @@ func genRaceWorkload(r *rand.Rand, id string) raceWorkload {
 	for _, i := range perm[:nf] {
 		chosen[i] = true
 	}
-	chosen[last] = g.p(0.4)
+	chosen[last] = g.p(0.33)
 	for i, f := range raceFeatures {
 		if chosen[i] {
 			f.fn(g)
